@@ -591,8 +591,10 @@ Notation nh := (nh PS).
 Notation enc_bits := (enc_bits sa sb PS pget pupd).
 Notation enc_bytes := (enc_bytes sa sb PS pget pupd).
 Notation dec_bytes := (dec_bytes sa sb PS pget pupd).
-Notation write_chunks := (write_chunks sa sb PS pget pupd).
-Notation read_chunks := (read_chunks sa sb PS pget pupd).
+Variable chunk_reset : PS -> PS.
+Variable dec_accepts : N -> N -> bool.
+Notation write_chunks := (write_chunks sa sb PS pget pupd chunk_reset).
+Notation read_chunks := (read_chunks sa sb PS pget pupd chunk_reset dec_accepts).
 
 Lemma einv_same (e : est) l h b ps : l = e_low PS e -> h = e_high PS e -> EInv e -> EInv (mkE PS l h b ps).
 Proof. intros -> -> [A B C D E]. constructor; assumption. Qed.
@@ -612,22 +614,23 @@ Proof.
   - inversion E; subst e1. cbn [e_buf]. exact Hc.
 Qed.
 
-Lemma read_chunks_zero F len cap l h ps s acc : read_chunks F len cap l h ps 0 s acc = DOk acc s.
+Lemma read_chunks_zero F len cnt l h ps s acc : read_chunks F len cnt l h ps 0 s acc = DOk acc s.
 Proof. destruct F; reflexivity. Qed.
 
-Variables (len cap : N).
+Variables (len cap cnt : N).
 Hypothesis Hcap : cap < 268435456.
+Hypothesis Hacc : forall sz, sz <= cap -> dec_accepts cnt sz = true.
 
 (* one chunk: what Write emitted for it is read back by one iteration of Read *)
-Lemma chunk_decode (e0 e1 : est) chunk tail accd F' R :
-  EInv e0 -> e_buf PS e0 = [] -> bytes_ok chunk -> enc_bytes cap e0 chunk = Some e1 ->
+Lemma chunk_decode (e0 e1 : est) ps_prev chunk tail accd F' R :
+  EInv e0 -> e_buf PS e0 = [] -> e_ps PS e0 = chunk_reset ps_prev -> bytes_ok chunk -> enc_bytes cap e0 chunk = Some e1 ->
   R <> 0 -> N.min len R = N.of_nat (length chunk) ->
   EInv e1 /\
-  read_chunks (S F') len cap (nl e0) (nh e0) (e_ps PS e0) R
+  read_chunks (S F') len cnt (nl e0) (nh e0) ps_prev R
       (varint (N.of_nat (length (e_buf PS e1))) ++ e_buf PS e1 ++ final56 (e_low PS e1) ++ tail) accd =
-    read_chunks F' len cap (nl e1) (nh e1) (e_ps PS e1) (R - N.of_nat (length chunk)) tail (accd ++ chunk).
+    read_chunks F' len cnt (nl e1) (nh e1) (e_ps PS e1) (R - N.of_nat (length chunk)) tail (accd ++ chunk).
 Proof.
-  intros HI Hb0 Hok He HR Hmin. unfold BinCoder.enc_bytes in He.
+  intros HI Hb0 Hps0 Hok He HR Hmin. unfold BinCoder.enc_bytes in He.
   pose proof (enc_bits_cap cap _ _ _ He ltac:(rewrite Hb0; cbn; lia)) as Hsz.
   destruct (coder_core sa sb Hsb PS pget pupd Hp cap _ e0 e1 HI He) as (suf & Ebuf & Hsok & HI1 & Hlo & Hhi & Hdec).
   rewrite Hb0 in Ebuf. cbn [app] in Ebuf. subst suf. split; [exact HI1|].
@@ -636,7 +639,7 @@ Proof.
   assert (HSlen : length S = (length buf1 + 7)%nat) by (unfold S; rewrite app_length, Hfl; reflexivity).
   cbn [BinCoder.read_chunks]. replace (R =? 0) with false by (symmetry; apply N.eqb_neq; exact HR).
   rewrite varint_roundtrip by lia.
-  replace (cap <? N.of_nat (length buf1)) with false by (symmetry; apply N.ltb_ge; exact Hsz).
+  rewrite (Hacc _ Hsz). cbn [negb].
   replace (buf1 ++ final56 (e_low PS e1) ++ tail) with (S ++ tail) by (unfold S; rewrite <- app_assoc; reflexivity).
   replace (N.of_nat (length (S ++ tail)) <? 7 + N.of_nat (length buf1)) with false by (symmetry; apply N.ltb_ge; rewrite app_length; lia).
   assert (E7 : firstn 7 (S ++ tail) = firstn 7 S).
@@ -650,7 +653,7 @@ Proof.
   assert (Etl : skipn (length buf1) (skipn 7 S ++ tail) = tail).
   { rewrite skipn_app, Hl7, Nat.sub_diag. change (skipn 0 tail) with tail. rewrite (@skipn_all2 _ (length buf1) (skipn 7 S)) by (clear - Hl7; lia). reflexivity. }
   rewrite Ebuf, Etl, Hmin, Nat2N.id.
-  fold (win S).
+  fold (win S). rewrite <- Hps0.
   rewrite (dec_bytes_spec sa sb Hsb PS pget pupd chunk _ _ Hok Hdec). cbn [d_low d_high d_ps]. reflexivity.
 Qed.
 
@@ -661,7 +664,7 @@ Lemma chunks_roundtrip : forall fuel block (e : est) acc out0 efin,
   write_chunks fuel len cap e block acc = Some (out0, efin) ->
   exists body, out0 = acc ++ body /\ EInv efin /\
     forall F rest accd, (length block <= F)%nat ->
-      read_chunks F len cap (nl e) (nh e) (e_ps PS e) (N.of_nat (length block)) (body ++ final56 (e_low PS efin) ++ rest) accd =
+      read_chunks F len cnt (nl e) (nh e) (e_ps PS e) (N.of_nat (length block)) (body ++ final56 (e_low PS efin) ++ rest) accd =
         DOk (accd ++ block) rest.
 Proof.
   induction fuel as [|f IH]; intros block e acc out0 efin HI Hok Hf Hne H.
@@ -669,9 +672,9 @@ Proof.
   destruct block as [|x t]; [congruence|]. set (block := x :: t) in *.
   cbn [BinCoder.write_chunks] in H. fold block in H.
   set (chunk := firstn (N.to_nat len) block) in *. set (restb := skipn (N.to_nat len) block) in *.
-  set (e0 := mkE PS (e_low PS e) (e_high PS e) [] (e_ps PS e)) in *.
+  set (e0 := mkE PS (e_low PS e) (e_high PS e) [] (chunk_reset (e_ps PS e))) in *.
   assert (HI0 : EInv e0) by (apply (einv_same e); auto).
-  assert (Hn0 : nl e0 = nl e /\ nh e0 = nh e /\ e_ps PS e0 = e_ps PS e) by (unfold e0; auto).
+  assert (Hn0 : nl e0 = nl e /\ nh e0 = nh e /\ e_ps PS e0 = chunk_reset (e_ps PS e)) by (unfold e0; auto).
   destruct Hn0 as (N1 & N2 & N3).
   assert (Hcok : bytes_ok chunk) by (apply bytes_ok_firstn; exact Hok).
   assert (Hrok : bytes_ok restb) by (apply bytes_ok_skipn; exact Hok).
@@ -686,21 +689,21 @@ Proof.
     split; [reflexivity|].
     assert (Hall : chunk = block) by (rewrite Hsplit, app_nil_r; reflexivity).
     cbn [length] in Hrlen.
-    destruct (chunk_decode e0 e1 chunk [] [] O (N.of_nat (length block)) HI0 eq_refl Hcok E1 ltac:(lia) ltac:(lia)) as [HI1 _].
+    destruct (chunk_decode e0 e1 (e_ps PS e) chunk [] [] O (N.of_nat (length block)) HI0 eq_refl N3 Hcok E1 ltac:(lia) ltac:(lia)) as [HI1 _].
     split; [exact HI1|]. intros F rest accd HF. destruct F as [|F']; [lia|].
     rewrite <- app_assoc.
-    destruct (chunk_decode e0 e1 chunk rest accd F' (N.of_nat (length block)) HI0 eq_refl Hcok E1 ltac:(lia) ltac:(lia)) as [_ Hrd].
-    rewrite N1, N2, N3 in Hrd. rewrite Hrd. rewrite Hall at 1. rewrite N.sub_diag, read_chunks_zero, Hall. reflexivity.
+    destruct (chunk_decode e0 e1 (e_ps PS e) chunk rest accd F' (N.of_nat (length block)) HI0 eq_refl N3 Hcok E1 ltac:(lia) ltac:(lia)) as [_ Hrd].
+    rewrite N1, N2 in Hrd. rewrite Hrd. rewrite Hall at 1. rewrite N.sub_diag, read_chunks_zero, Hall. reflexivity.
   - assert (Hlenb : (N.to_nat len < length block)%nat) by (cbn [length] in Hrlen; lia).
     assert (Hcl : length chunk = N.to_nat len) by lia.
-    destruct (chunk_decode e0 e1 chunk [] [] O (N.of_nat (length block)) HI0 eq_refl Hcok E1 ltac:(lia) ltac:(lia)) as [HI1 _].
+    destruct (chunk_decode e0 e1 (e_ps PS e) chunk [] [] O (N.of_nat (length block)) HI0 eq_refl N3 Hcok E1 ltac:(lia) ltac:(lia)) as [HI1 _].
     destruct (IH (y :: q) e1 _ out0 efin HI1 Hrok ltac:(rewrite Hrlen; lia) ltac:(discriminate) H) as (body2 & Eo & HIf & Hrd2).
     exists (varint (N.of_nat (length (e_buf PS e1))) ++ e_buf PS e1 ++ final56 (e_low PS e1) ++ body2).
     split; [rewrite Eo; rewrite <- !app_assoc; reflexivity|]. split; [exact HIf|].
     intros F rest accd HF. destruct F as [|F']; [lia|].
     rewrite <- !app_assoc.
-    destruct (chunk_decode e0 e1 chunk (body2 ++ final56 (e_low PS efin) ++ rest) accd F' (N.of_nat (length block)) HI0 eq_refl Hcok E1 ltac:(lia) ltac:(lia)) as [_ Hrd].
-    rewrite N1, N2, N3 in Hrd. rewrite Hrd.
+    destruct (chunk_decode e0 e1 (e_ps PS e) chunk (body2 ++ final56 (e_low PS efin) ++ rest) accd F' (N.of_nat (length block)) HI0 eq_refl N3 Hcok E1 ltac:(lia) ltac:(lia)) as [_ Hrd].
+    rewrite N1, N2 in Hrd. rewrite Hrd.
     replace (N.of_nat (length block) - N.of_nat (length chunk)) with (N.of_nat (length (y :: q))) by (rewrite Hrlen; lia).
     rewrite (Hrd2 F' rest (accd ++ chunk)) by (rewrite Hrlen; lia).
     rewrite <- app_assoc, <- Hsplit. reflexivity.
@@ -716,22 +719,51 @@ Proof.
   destruct (67108864 <=? count) eqn:E1; [destruct (count <? 536870912) eqn:E2|destruct (count <? 64) eqn:E3]; lia.
 Qed.
 
-Theorem coder_roundtrip (sa sb : N) (Hsb : sb <= 8) (PS : Type) (pget : PS -> N) (pupd : PS -> bool -> PS)
-  (Hp : forall ps, pget ps < 2 ^ (sa + sb)) ps0 block out :
-  bytes_ok block -> encode sa sb PS pget pupd ps0 block = Some out ->
-  forall rest, decode sa sb PS pget pupd ps0 (N.of_nat (length block)) (out ++ rest) = DOk block rest.
+(* generic form: any chunking rule with positive chunks, a buffer below 2^28 bytes, and a decoder that
+   accepts every chunk size the encoder's buffer can hold *)
+Theorem coder_roundtrip_gen (sa sb : N) (Hsb : sb <= 8) (PS : Type) (pget : PS -> N) (pupd : PS -> bool -> PS)
+  (Hp : forall ps, pget ps < 2 ^ (sa + sb)) (reset : PS -> PS) (clen bcap : N -> N) (accepts : N -> N -> bool)
+  (Hparams : forall count, 0 < count -> count <= 1073741824 ->
+     0 < clen count /\ bcap count < 268435456 /\ forall sz, sz <= bcap count -> accepts count sz = true)
+  ps0 block out :
+  bytes_ok block -> encode sa sb PS pget pupd reset clen bcap ps0 block = Some out ->
+  forall rest, decode sa sb PS pget pupd reset clen accepts ps0 (N.of_nat (length block)) (out ++ rest) = DOk block rest.
 Proof.
   intros Hok He rest. unfold encode in He. unfold decode.
   destruct (N.of_nat (length block) =? 0) eqn:E0.
   - apply N.eqb_eq in E0. inversion He; subst out. destruct block; [|cbn in E0; lia]. reflexivity.
   - apply N.eqb_neq in E0. destruct (1073741824 <? N.of_nat (length block)) eqn:Eb; [discriminate|]. apply N.ltb_ge in Eb.
-    destruct (chunk_len_bounds _ (proj1 (N.neq_0_lt_0 _) E0) Eb) as [Hl Hc].
-    destruct (write_chunks sa sb PS pget pupd (length block) _ _ (mkE PS 0 TOP [] ps0) block []) as [[out0 e]|] eqn:Ew; [|discriminate].
+    destruct (Hparams _ (proj1 (N.neq_0_lt_0 _) E0) Eb) as (Hl & Hc & Hacc).
+    destruct (write_chunks sa sb PS pget pupd reset (length block) _ _ (mkE PS 0 TOP [] ps0) block []) as [[out0 e]|] eqn:Ew; [|discriminate].
     inversion He; subst out. clear He.
-    destruct (chunks_roundtrip sa sb Hsb PS pget pupd Hp _ _ Hc Hl (length block) block _ [] out0 e (einv_init PS ps0) Hok (le_n _)
+    destruct (chunks_roundtrip sa sb Hsb PS pget pupd Hp reset accepts _ _ _ Hc Hacc Hl (length block) block _ [] out0 e (einv_init PS ps0) Hok (le_n _)
                 ltac:(destruct block; [cbn in E0; lia|discriminate]) Ew) as (body & Eo & _ & Hrd).
     cbn [app] in Eo. subst out0. rewrite <- app_assoc.
     specialize (Hrd (N.to_nat (N.of_nat (length block))) rest [] ltac:(lia)).
     unfold BinCoderProofs.nl, BinCoderProofs.nh in Hrd. cbn [e_low e_high e_ps] in Hrd.
     change (0 mod T56) with 0 in Hrd. change (TOP mod T56) with TOP in Hrd. exact Hrd.
+Qed.
+
+(* BinaryEntropyCodec.go *)
+Theorem coder_roundtrip (sa sb : N) (Hsb : sb <= 8) (PS : Type) (pget : PS -> N) (pupd : PS -> bool -> PS)
+  (Hp : forall ps, pget ps < 2 ^ (sa + sb)) ps0 block out :
+  bytes_ok block -> bin_encode sa sb PS pget pupd ps0 block = Some out ->
+  forall rest, bin_decode sa sb PS pget pupd ps0 (N.of_nat (length block)) (out ++ rest) = DOk block rest.
+Proof.
+  intros Hok He rest. unfold bin_encode, bin_decode in *.
+  apply (coder_roundtrip_gen sa sb Hsb PS pget pupd Hp (fun ps => ps) chunk_len buf_size bin_accepts); [|exact Hok|exact He].
+  intros count H0 H1. destruct (chunk_len_bounds count H0 H1) as [A B]. split; [exact A|]. split; [exact B|].
+  intros sz Hsz. unfold bin_accepts. apply negb_true_iff. apply N.ltb_ge. exact Hsz.
+Qed.
+
+(* the framing of FPAQCodec.go around the same coder (shifts 8/8, 16-bit probabilities) *)
+Theorem fpaq_framing_roundtrip (PS : Type) (pget : PS -> N) (pupd : PS -> bool -> PS) (reset : PS -> PS)
+  (Hp : forall ps, pget ps < 65536) ps0 block out :
+  bytes_ok block -> encode 8 8 PS pget pupd reset fpaq_chunk_len fpaq_buf_cap ps0 block = Some out ->
+  forall rest, decode 8 8 PS pget pupd reset fpaq_chunk_len fpaq_accepts ps0 (N.of_nat (length block)) (out ++ rest) = DOk block rest.
+Proof.
+  intros Hok He rest.
+  apply (coder_roundtrip_gen 8 8 ltac:(discriminate) PS pget pupd Hp reset fpaq_chunk_len fpaq_buf_cap fpaq_accepts); [|exact Hok|exact He].
+  intros count H0 H1. unfold fpaq_buf_cap, fpaq_chunk_len, fpaq_accepts. rewrite N.shiftr_div_pow2. change (2 ^ 3) with 8.
+  split; [lia|]. split; [lia|]. intros sz Hsz. apply N.ltb_lt. lia.
 Qed.
